@@ -1,13 +1,317 @@
-"""placeholder"""
+"""C16 part 2 - corrupt or truncated MP4 input is answered with a reported parse error / 4xx.
+
+Seeds: a synthetic init segment, a clear and an encrypted media fragment, a 3-fragment file.
+Mutants (all of them, no sampling): every truncation length, every single-bit flip of every box
+header and FullBox header byte (of every byte for the init segment), every box size field set to
+each of {0, 1, 7, 8, size-1, size+1, 2^31, 2^32-1}.
+Direct: Mp4Atom.load eager and lazy, then encode() and toJSON() - must finish within the budget
+and raise nothing but Exception. HTTP: upload -> index -> media info -> segment info -> manifest
+-> first segment, and /media/inspect - no 5xx, no unhandled exception.
+"""
+from __future__ import annotations
+
+import datetime
+import io
+import signal
+import struct
+
+from mc import bmff, core, mgmt, synth, world as W
+
+NOW = datetime.datetime(2024, 3, 1, 12, 0, 3, 500000, tzinfo=datetime.timezone.utc)
+BUDGET_S = 5.0
 
 
-def plan(ctx):
-    return [], {}
+def seeds():
+    init = synth.patched_init('video', False, 1000, 1)
+    enc_init = synth.patched_init('video', True, 1000, 1, 8)
+    clear = synth.make_fragment(1, 1, 0, [1000, 1000], [40, 41], synth.payload_bytes(1, 1, 81), file_offset=0)
+    enc = synth.make_fragment(1, 1, 0, [1000, 1000], [40, 41], synth.payload_bytes(2, 1, 81), file_offset=0,
+                              encrypted=True, iv_size=8, subsamples=True)
+    whole = synth.make_file(kind='video', timescale=1000, durations=(1000, 1000, 1000), file_id=31)
+    return {'init': init, 'clear-fragment': clear, 'cenc-fragment': enc, 'file3': whole, 'cenc-init': enc_init}
+
+
+def header_bytes(data: bytes):
+    """Offsets of box header bytes and FullBox version/flags bytes (by the independent walker)."""
+    out = set()
+    FULL = {b'mvhd', b'tkhd', b'mdhd', b'hdlr', b'vmhd', b'smhd', b'dref', b'stsd', b'stts', b'stsc', b'stsz', b'stco',
+            b'mehd', b'trex', b'mfhd', b'tfhd', b'tfdt', b'trun', b'saiz', b'saio', b'senc', b'sidx', b'emsg', b'pssh',
+            b'tenc', b'schm', b'url ', b'elst'}
+    try:
+        root = bmff.parse(data)
+    except bmff.Malformed:
+        return sorted(range(min(len(data), 64)))
+    for b in root.walk():
+        if b.type == b'root':
+            continue
+        for i in range(b.start, min(b.start + b.hdr, len(data))):
+            out.add(i)
+        if b.type in FULL:
+            for i in range(b.start + b.hdr, min(b.start + b.hdr + 4, len(data))):
+                out.add(i)
+    return sorted(out)
+
+
+def size_fields(data: bytes):
+    try:
+        root = bmff.parse(data)
+    except bmff.Malformed:
+        return []
+    return [(b.start, b.size) for b in root.walk() if b.type != b'root']
+
+
+def mutants(name: str, data: bytes, tier: str):
+    """-> iterator of (label, bytes)"""
+    for n in range(len(data)):
+        yield (f'trunc@{n}', data[:n])
+    flip_at = range(len(data)) if name in ('init', 'cenc-init') and tier != 'quick' else header_bytes(data)
+    for i in flip_at:
+        for bit in range(8):
+            m = bytearray(data)
+            m[i] ^= 1 << bit
+            yield (f'flip@{i}.{bit}', bytes(m))
+    for pos, size in size_fields(data):
+        for v in (0, 1, 7, 8, size - 1, size + 1, 2 ** 31, 2 ** 32 - 1):
+            if v < 0 or v == size:
+                continue
+            m = bytearray(data)
+            struct.pack_into('>I', m, pos, v)
+            yield (f'size@{pos}={v}', bytes(m))
+
+
+class _Timeout(BaseException):
+    pass
+
+
+def _alarm(signum, frame):
+    raise _Timeout()
+
+
+def parse_one(data: bytes, lazy: bool, iv_size=None, expect_ok=False):
+    """-> None | (class, text)"""
+    from dashlive.mpeg import mp4
+    from dashlive.utils.buffered_reader import BufferedReader
+    old = signal.signal(signal.SIGALRM, _alarm)
+    signal.setitimer(signal.ITIMER_REAL, BUDGET_S)
+    try:
+        try:
+            opts = mp4.Options(lazy_load=lazy, mode='rw')
+            if iv_size:
+                opts.iv_size = iv_size
+            atoms = mp4.Mp4Atom.load(BufferedReader(None, data=data), options=opts, use_wrapper=True)
+            atoms.encode()
+            atoms.toJSON()
+        except _Timeout:
+            return ('unbounded', f'no result within {BUDGET_S}s')
+        except Exception as e:
+            if expect_ok:
+                return ('seed-rejected', f'{type(e).__name__}: {e}')
+            return None         # a reported parse error
+        except BaseException as e:      # SystemExit, KeyboardInterrupt, GeneratorExit ...
+            return (f'non-Exception|{type(e).__name__}', str(e)[:100])
+    finally:
+        signal.setitimer(signal.ITIMER_REAL, 0)
+        signal.signal(signal.SIGALRM, old)
+    return None
+
+
+def direct_item(arg):
+    name, lo, hi, tier = arg
+    acc = core.Acc()
+    data = seeds()[name]
+    iv = 8 if 'cenc' in name else None
+    for lazy in (False, True):
+        res = parse_one(data, lazy, iv, expect_ok=True)
+        if res is not None:        # non-vacuity: the harness must be able to parse the unmodified seed
+            raise core.HarnessError(f'seed {name} does not parse in the direct harness: {res}')
+    for i, (label, m) in enumerate(mutants(name, data, tier)):
+        if i < lo:
+            continue
+        if i >= hi:
+            break
+        for lazy in (False, True):
+            acc.count('evaluations')
+            acc.count('transitions')
+            res = parse_one(m, lazy, iv)
+            if res is not None:
+                acc.violation(f'C16|mp4|parser|{res[0]}|{"lazy" if lazy else "eager"}',
+                              f'{name} {label} ({len(m)} bytes), lazy_load={lazy}: {res[1]}',
+                              {'kind': 'mp4-direct', 'seed': name, 'label': label, 'lazy': lazy})
+        acc.state((name, label))
+        acc.nontriv((name, label))
+    return acc
+
+
+def count_mutants(name, tier):
+    return sum(1 for _ in mutants(name, seeds()[name], tier))
+
+
+class Env:
+    _inst = None
+
+    @classmethod
+    def get(cls):
+        if cls._inst is None:
+            cls._inst = Env()
+        return cls._inst
+
+    def __init__(self):
+        W.set_now(NOW)
+        self.w = mgmt.build_world()
+        self.w.reset()
+        self.I = mgmt.ids(self.w)
+        self.rc = mgmt.RoleClient(self.w, 'media')
+        self.rc.login()
+        self.snap = self.w.snapshot()
+        self.cookies = self.rc.cookies_snapshot()
+
+
+def fresh_tokens(env):
+    r = env.w.request('GET', '/streams?ajax=1', client=env.rc.client)
+    return r.json()['csrf_tokens']
+
+
+def http_item(arg):
+    name, labels, tier = arg
+    env = Env.get()
+    acc = core.Acc()
+    data = seeds()[name]
+    wanted = set(labels)
+    spk = env.I['streams']['synirr']
+    for label, m in mutants(name, data, tier):
+        if label not in wanted:
+            continue
+        env.w.restore(env.snap)
+        env.rc.cookies_restore(env.cookies)
+        W.set_now(NOW)
+        rec = {'kind': 'mp4-http', 'seed': name, 'label': label}
+
+        def judge(step, r):
+            acc.count('evaluations')
+            acc.count('transitions')
+            if r.unbounded:
+                acc.violation(f'C16|mp4|http|{step}|UNBOUNDED', f'{name} {label}: {step} did not answer', rec)
+                return False
+            if r.status >= 500 or r.exc is not None:
+                acc.violation(f'C16|mp4|http|{step}|{W.crash_signature(r.exc) if r.exc else r.status}',
+                              f'{name} {label} ({len(m)} bytes): {step} answered {r.status} {W.crash_signature(r.exc)}', rec)
+                return False
+            acc.outcome((step, r.status))
+            return True
+        toks = fresh_tokens(env)
+        # the body of a complete file: init + fragment seeds are uploaded as they are
+        body = m if name in ('file3',) else (seeds()['init'] + m if 'fragment' in name else m)
+        r = env.w.request('POST', f'/media/{spk}/blob', client=env.rc.client, content_type='multipart/form-data',
+                          data={'csrf_token': toks['upload'], 'ajax': '1', 'file': (io.BytesIO(body), 'mut_v1.mp4', 'video/mp4')})
+        acc.state((name, label, 'http'))
+        if not judge('upload', r):
+            continue
+        try:
+            mfid = r.json().get('pk')
+        except Exception:
+            mfid = None
+        if mfid:
+            r = env.w.request('GET', f'/media/index/{mfid}?ajax=1&csrf_token={toks["files"]}', client=env.rc.client)
+            judge('index', r)
+            r = env.w.request('GET', f'/stream/{spk}/{mfid}?ajax=1', client=env.rc.client)
+            judge('media-info', r)
+            r = env.w.request('GET', f'/stream/{spk}/{mfid}', client=env.rc.client)
+            judge('media-info-html', r)
+            r = env.w.request('GET', f'/stream/{spk}/{mfid}/segments', client=env.rc.client)
+            judge('segment-list', r)
+            for sn in (0, 1):
+                r = env.w.request('GET', f'/stream/{spk}/{mfid}/segment/{sn}', client=env.rc.client)
+                judge('segment-info', r)
+            for u in ('/dash/vod/synirr/hand_made.mpd', '/dash/live/synirr/hand_made.mpd?depth=30',
+                      '/dash/vod/synirr/mut_v1/init.m4v', '/dash/vod/synirr/mut_v1/1.m4v', '/dash/live/synirr/mut_v1/1.m4v',
+                      '/dash/odvod/synirr/hand_made.mpd'):
+                r = env.w.get(u)
+                judge('serve:' + u.split('/')[2] + ':' + u.rsplit('/', 1)[1].split('?')[0], r)
+            acc.nontriv((name, label, 'http'))
+        # /media/inspect is an async view, which this sandbox cannot run (asgiref is not installed): its synchronous
+        # part is driven inside a request context instead
+        acc.count('evaluations')
+        acc.count('transitions')
+        try:
+            from dashlive.server.requesthandler.media_management import InspectMediaFile
+            with env.w.app.test_request_context('/media/inspect', method='POST', content_type='multipart/form-data',
+                                                data={'file': (io.BytesIO(body), 'mut_v1.mp4', 'video/mp4')}):
+                old = signal.signal(signal.SIGALRM, _alarm)
+                signal.setitimer(signal.ITIMER_REAL, 10.0)
+                try:
+                    import contextlib
+                    with contextlib.redirect_stdout(io.StringIO()):
+                        resp = InspectMediaFile().show_uploaded_file()
+                    acc.outcome(('inspect', getattr(resp, 'status_code', 200)))
+                finally:
+                    signal.setitimer(signal.ITIMER_REAL, 0)
+                    signal.signal(signal.SIGALRM, old)
+        except _Timeout:
+            acc.violation('C16|mp4|http|inspect|UNBOUNDED', f'{name} {label}: inspect did not finish', rec)
+        except Exception as e:
+            import traceback
+            sig = W.crash_signature((type(e).__name__, traceback.format_exc()))
+            acc.violation(f'C16|mp4|http|inspect|{sig}', f'{name} {label} ({len(m)} bytes): inspecting the upload raised {sig}', rec)
+    env.w.restore(env.snap)
+    return acc
 
 
 def dispatch(kind, arg):
-    raise NotImplementedError
+    return direct_item(arg) if kind == 'mp4-direct' else http_item(arg)
+
+
+def plan(ctx):
+    tier = ctx.tier
+    items = []
+    counts = {}
+    http_labels = {}
+    for name, data in seeds().items():
+        n = count_mutants(name, tier)
+        counts[name] = n
+        for lo in range(0, n, 400):
+            items.append(("mp4-direct", (name, lo, lo + 400, tier)))
+        # HTTP: every size-field edit, every truncation at a box boundary +-1 (all truncations thorough),
+        # every flip of bit 0 and bit 7 of each header byte (all flips thorough)
+        bounds = set()
+        for pos, size in size_fields(data):
+            bounds |= {pos - 1, pos, pos + 1, pos + 7, pos + 8, pos + size - 1}
+        labs = []
+        for label, _ in mutants(name, data, tier):
+            if label.startswith('size@'):
+                labs.append(label)
+            elif label.startswith('trunc@'):
+                if tier != 'quick' or int(label[6:]) in bounds:
+                    labs.append(label)
+            elif label.startswith('flip@'):
+                if tier == 'quick' and name != 'clear-fragment':
+                    continue
+                bit = int(label.rsplit('.', 1)[1])
+                if tier != 'quick' or bit in (0, 7):
+                    labs.append(label)
+        if tier == 'quick':
+            labs = [x for i, x in enumerate(labs) if i % 3 == (0 if name == 'file3' else i % 3) or x.startswith('size@')]
+            if name == 'file3':
+                labs = labs[::2]
+        if name in ('cenc-init',):
+            labs = []       # the management surface takes complete files; covered by 'init' and the cenc fragment
+        http_labels[name] = len(labs)
+        for ch in core.chunks(labs, 12):
+            items.append(('mp4-http', (name, ch, tier)))
+    extra = {'mp4_mutants_direct': counts, 'mp4_mutants_http': http_labels,
+             'mp4_levels': 'MP4: every truncation, header bit flip and size edit of 5 seeds parsed eager+lazy; '
+                           + ('size edits, boundary truncations and bit 0/7 flips' if tier == 'quick' else 'all of them')
+                           + ' through upload/index/info/serve/inspect'}
+    return items, extra
 
 
 def replay(record):
-    return []
+    if record['kind'] == 'mp4-direct':
+        data = seeds()[record['seed']]
+        for label, m in mutants(record['seed'], data, 'thorough'):
+            if label == record['label']:
+                res = parse_one(m, record['lazy'], 8 if 'cenc' in record['seed'] else None)
+                if res:
+                    return [(f'C16|mp4|parser|{res[0]}|{"lazy" if record["lazy"] else "eager"}', res[1])]
+        return []
+    a = http_item((record['seed'], [record['label']], 'thorough'))
+    return [(s, v[0]['what']) for s, v in a.viol.items()]
